@@ -135,6 +135,53 @@ def straight_shard(shard):
     return p
 
 
+def long_programs(seed):
+    """Programs that run for hundreds or thousands of cycles (what a bound on the program LENGTH never reaches): long
+    straight-line code and counted loops whose body stalls, flushes, stores, calls and prints."""
+    r1, r2, r3 = alpha.regs_for_seed(seed)
+    out = []
+    for n in (64, 255, 256, 257, 600, 1100):
+        prog = []
+        for i in range(n):
+            rd = 1 + (i % 14)
+            prog.append([("add", rd, 29, 30, 0), ("addi", rd, 29, 0, 3), ("lw", rd, 31, 0, 4), ("sw", 0, 31, 30, 8), ("lui", rd, 0, 0, 5), ("beq", 0, 29, 0, 8)][i % 6])
+        out.append((f"straight-{n}", prog, n))
+    for iters in (40, 130, 300):
+        out.append((f"loop-x{iters}", [("addi", 25, 0, 0, iters), ("addi", r1, r1, 0, 1), ("addi", 25, 25, 0, -1), ("bne", 0, 25, 0, -8), ("add", r2, r1, r1, 0)], None))
+        out.append((f"loop-load-store-x{iters}", [("addi", 25, 0, 0, iters), ("lw", r1, 31, 0, 4), ("addi", r1, r1, 0, 1), ("sw", 0, 31, r1, 4), ("addi", 25, 25, 0, -1),
+                                                   ("bne", 0, 25, 0, -16), ("lw", r2, 31, 0, 4)], None))
+        out.append((f"loop-call-print-x{iters}", [("addi", 25, 0, 0, iters), ("addi", 17, 0, 0, 1), ("jal", 27, 0, 0, 20), ("addi", 25, 25, 0, -1), ("bne", 0, 25, 0, -8),
+                                                   ("addi", 17, 0, 0, 93), ("ecall", 0, 0, 0, 0), ("add", 10, 25, 0, 0), ("ecall", 0, 0, 0, 0), ("jalr", 0, 27, 0, 0)], None))
+    return out
+
+
+LONG_REGS = {29: 9, 30: 4, 31: BASE}
+LONG_WORDS = {BASE + 4: 0x01020304}
+
+
+def long_shard(shard):
+    seed, k, hazard, oracle = shard
+    name, prog, n = long_programs(seed)[k]
+    p = Partial()
+    ref, bad = pipecmp.lockstep(prog, LONG_REGS, LONG_WORDS, 20000, hazard, WANT)
+    p.evaluations += 1
+    p.traces += 1
+    p.transitions += ref.cyc
+    p.nontrivial += 1
+    if ref.cyc > 256:
+        p.counters["run-longer-than-256-cycles"] += 1
+    if ref.cyc > 2000:
+        p.counters["run-longer-than-2000-cycles"] += 1
+    if n is not None and hazard:
+        sim = rv.make_sim(rv.FIVE, prog, LONG_REGS, LONG_WORDS)
+        res = rv.run(sim, n + 40)
+        if res.cycles != n + 4 or not res.done:
+            bad.append(("n+4", f"{n} independent instructions took {res.cycles} cycles (done={res.done}), documented n+4 = {n + 4}"))
+    for f, d in bad:
+        p.violation(dict(oracle=oracle, field=f), pipecmp.case_of(prog, LONG_REGS, LONG_WORDS, 20000, hazard), f"{name} [{rv.prog_text(prog[:8])}{' ...' if len(prog) > 8 else ''}]: {d}", size=(len(prog), k))
+    return p
+
+
 def replay(case):
     if case.get("kind") == "penalty":
         from vf.checks import c07_penalty
@@ -178,6 +225,10 @@ def run(ctx):
     t0 = time.time()
     part = pmap(straight_shard, [(seed, i, 32) for i in range(32)])
     ctx.space("straight-line-n+4", part, t0)
+    t0 = time.time()
+    part = pmap(long_shard, [(seed, k, True, ORACLE) for k in range(len(long_programs(seed)))])
+    ctx.space("long-runs", part, t0, programs=[n for n, _p, _k in long_programs(seed)])
+    ctx.require("run-longer-than-256-cycles", "run-longer-than-2000-cycles")
     pipecmp.fixed_point(ctx, seed, False, True, 12, "fixed-point-F12")
     if thorough:
         pipecmp.fixed_point(ctx, seed, True, True, 12, "fixed-point-F16")
